@@ -156,6 +156,12 @@ Theorem C11_noop_reports_unchanged : forall d q u up fs now d' ch,
 Proof. exact (noop_reports_unchanged _). Qed.
 Print Assumptions C11_noop_reports_unchanged.
 
+(* docsEqual = structural equality: counted exactly when the document differs *)
+Theorem C11_counted_modified_iff : forall before after,
+  counted_modified before after = true <-> before <> after.
+Proof. exact counted_modified_iff. Qed.
+Print Assumptions C11_counted_modified_iff.
+
 (* ------------------------------------------------------------------ *)
 (* reference semantics (Spec/RefUpdate.v) of the array operators and $rename
    on a plain path.  Partial: the other operators have no separate reference
